@@ -96,16 +96,36 @@ func Main(scenarios []Scenario) {
 				}
 				wg.Wait()
 			}
-			e := &sched.Explorer{Bound: bound, Body: body, MaxSchedules: maxS, Check: func(x *sched.Execution) (string, string) {
+			check := func(x *sched.Execution) (string, string) {
 				if d := diff(want, got); d != "" {
 					return "", d
 				}
 				return "equal-to-solo", ""
-			}}
+			}
+			// pass 1: points at rule entries, token records and API boundaries, full bound
+			e := &sched.Explorer{Bound: bound, Body: body, MaxSchedules: maxS, Check: check}
 			st := e.Run()
 			sr.Schedules, sr.Decisions, sr.MaxDepth, sr.Points, sr.Outcomes, sr.Capped = st.Schedules, st.Decisions, st.MaxDepth, st.Points, st.Outcomes, st.Capped
+			// pass 2: additionally every statement of the runtime functions (error formatting, AST,
+			// printers, Execute), one preemption less
+			sched.FinePoints = true
+			e2 := &sched.Explorer{Bound: max(bound-1, 1), Body: body, MaxSchedules: maxS, Check: check}
+			st2 := e2.Run()
+			sched.FinePoints = false
+			sr.Schedules += st2.Schedules
+			sr.Decisions += st2.Decisions
+			sr.MaxDepth = max(sr.MaxDepth, st2.MaxDepth)
+			sr.Points += st2.Points
+			sr.Capped = sr.Capped || st2.Capped
+			for k, v := range st2.Outcomes {
+				sr.Outcomes[k] += v
+			}
+			st.Failures = append(st.Failures, st2.Failures...)
+			st.FailChoices = append(st.FailChoices, st2.FailChoices...)
+			nCoarse := len(st.Failures) - len(st2.Failures)
 			for k, f := range st.Failures {
 				// replay the failing schedule twice: identical trace and observation, or the failure is not believed
+				sched.FinePoints = k >= nCoarse
 				x1 := sched.Execute(st.FailChoices[k], true, body)
 				g1 := strings.Join(got, "|")
 				x2 := sched.Execute(st.FailChoices[k], true, body)
@@ -117,6 +137,7 @@ func Main(scenarios []Scenario) {
 				sr.Violations = append(sr.Violations, f)
 				sr.Schedules2 = append(sr.Schedules2, sched.FormatChoices(st.FailChoices[k]))
 			}
+			sched.FinePoints = false
 		} else {
 			// free-running: real goroutines, repeated; results must still equal the solo results
 			rounds := bound
